@@ -121,6 +121,17 @@ Theorem C19_checker_sound :
 Proof. exact check_minkowski_sound. Qed.
 Print Assumptions C19_checker_sound.
 
+(* the cross-product membership test of the checker in the winding-number vocabulary of base/Winding.v: a point
+   it accepts has winding number +1 or -1 around one of the (k-scaled) parallelograms.  (The converse -- non-zero
+   winding implies membership of the closed parallelogram -- is cross-checked at run time on every far sample point.) *)
+Theorem C19_membership_is_winding :
+  forall k isSum isClosed pat pth q,
+  in_some (scalek k (para_quads isSum isClosed pat pth)) q = true ->
+  exists P, In P (para_quads isSum isClosed pat pth) /\
+            (wn (map (pscale k) P) q = 1 \/ wn (map (pscale k) P) q = -1).
+Proof. exact in_some_wn_some. Qed.
+Print Assumptions C19_membership_is_winding.
+
 (* What is proved about MinkowskiSum/MinkowskiDiff as a whole.  PARTIAL: the missing link is
    "detail::Union(quads, NonZero) is the NonZero union of the quads within 2 units" (Clipper64::Execute on massively
    degenerate input: shared edges and vertices) -- validated through [C19_checker_sound] by sampling, not proved. *)
